@@ -63,6 +63,8 @@ def run(ctx):
         rep.anchor_missing("OBS-3", "no functions found in statime_linux::metrics::format")
     obs3(rep, fmt_fns)
     obs4_6(rep, fmt_fns)
+    rep.rule("OBS-8", "no metric reads the field that names a sibling metric; no two metrics read the same field", floor=15)
+    obs8(rep, fmt_fns)
     obs5(rep, prog)
 
 
@@ -288,6 +290,54 @@ def describe(n):
     if k == "mcall":
         return "%s.%s()" % (describe(n["recv"]), n["name"])
     return k or "?"
+
+
+ACCESSORS = {"nanos_lossy", "to_primitive", "to_nanos", "seconds", "nanos", "into", "clone", "as_ref", "unwrap_or",
+             "unwrap_or_default", "map", "len", "is_some", "as_log_2"}
+
+
+def obs8(rep, fmt_fns):
+    """OBS-8 (sibling cross-check): a metric's value is not read from the field that gives ANOTHER metric of the same
+    data set its name, and no two metrics read the very same field chain (copy/paste slip between adjacent blocks)."""
+    per = []
+    for key, (u, h) in sorted(fmt_fns.items()):
+        body = hir.fn_body(h)
+        for c in hir.walk(body):
+            if c.get("k") != "call" or not hir.callee_name(c).endswith("format::format_metric") or len(c.get("args", [])) < 6:
+                continue
+            a1 = hir.strip_wrappers(c["args"][1])
+            name = (a1.get("v") or {}).get("str") if a1.get("k") == "lit" else None
+            for x in hir.walk(c["args"][5]):
+                if x.get("k") == "struct" and (x.get("path", {}).get("text", "")).endswith("Measurement"):
+                    for f in x["fields"]:
+                        if f["name"] != "value":
+                            continue
+                        chain = []
+                        for y in hir.walk(f["e"]):
+                            if y.get("k") == "field":
+                                chain.append(y["name"])
+                            elif y.get("k") == "mcall" and y["name"] not in ACCESSORS:
+                                chain.append(y["name"])
+                        per.append((key, name, tuple(chain), hir.where(c)))
+    names = {}
+    for (key, name, chain, where) in per:
+        names.setdefault(key, set()).add(name)
+    by_chain = {}
+    for (key, name, chain, where) in per:
+        if not chain:
+            continue
+        inner = chain[0]
+        if inner != name and inner in names[key]:
+            rep.violation("OBS-8", key, "metric %s source" % name,
+                          "metric `%s` takes its value from field `%s`, which is the field that names its sibling metric `%s`"
+                          % (name, inner, inner), where=where)
+        else:
+            rep.ok("OBS-8", key, "metric %s source" % name, detail=".".join(reversed(chain)), where=where, nontrivial=False)
+        by_chain.setdefault((key, chain), []).append((name, where))
+    for (key, chain), lst in by_chain.items():
+        if len(lst) > 1:
+            rep.violation("OBS-8", key, "metrics %s share a source" % "/".join(n for n, _ in lst),
+                          "metrics %s all read `%s`" % ([n for n, _ in lst], ".".join(reversed(chain))), where=lst[1][1])
 
 
 def obs4_6(rep, fmt_fns):
